@@ -494,6 +494,28 @@ example :
       right; decide
     · simp at hp
 
+/-! ## hashed `PythonNode`s that are produced by one task and consumed by another -/
+
+/-- **pynode_dependency.** A `PythonNode` whose value is still unset when the consumer is collected is wrapped
+(`collect_dependency`); once the producer has saved a value `v`, the state of the *dependency* is exactly the state the
+node itself has with `v` — the `hash` setting travels with the wrapper. -/
+theorem C12_pynode_dependency (n : PNode) (v : PyVal) :
+    stateWrapper sha { (wrapDependency n) with inner := n.save v } = statePythonNodeOpt sha n.hash (some v) := by
+  cases h : n.hash <;> simp [stateWrapper, wrapDependency, PNode.save, statePythonNodeOpt, h]
+
+/-- **pynode_dependency_sep.** For a hashed node (`hash=True`), two produced values of the same shape that Python tells
+apart (fixed-width sequences, no sha collision among the strings hashed) give the consumer different states: the
+change is detected.  With `hash=False` the state is the constant `"0"` by design. -/
+theorem C12_pynode_dependency_sep (hlen : ∀ b, (sha b).length = 64) (S : Bytes → Prop) (hS : InjOn sha S)
+    (n : PNode) (hn : n.hash = .on) (a b : PyVal) (hs : SameShape a b) (hw : WidthOK a b)
+    (ca : Covers sha S a) (cb : Covers sha S b) (hne : ¬ PyEqH a b) :
+    stateWrapper sha { (wrapDependency n) with inner := n.save a } ≠
+      stateWrapper sha { (wrapDependency n) with inner := n.save b } := by
+  rw [C12_pynode_dependency, C12_pynode_dependency, hn]
+  simp only [statePythonNodeOpt, ne_eq, Option.some.injEq]
+  intro h
+  exact hne (hashValue_inj_aux sha hlen S hS a b hs hw ca cb (render_inj sha hs h))
+
 /-! ## CPython's `hash(int)` -/
 
 /-- **pyHashInt_range.** `hash(i)` lies strictly between ∓(2^61 - 1) and is never -1. -/
